@@ -276,7 +276,7 @@ def main(tier):
             print("C03: fixed finding %s is back: %s" % (f["id"], detail))
             common.report_violation(PROP, rp)
             nviol += 1
-    total = 400 if tier == "quick" else 8000
+    total = 1200 if tier == "quick" else 12000
     results = harness.run_workers("pbt.c03_shadow_eval", tier, total)
     for r in results:
         ev.merge(r["evidence"])
